@@ -9,6 +9,7 @@ PID = "C03"
 LEVEL = "exploration"
 RULE = (
     "One spec in three has lived before (warm start): another model edited in place into this one or swapped into the old project object, or the model's own run cut short by max_time and then continued with one of the unequal initialize-flag combinations (state carried over and logs restarted, or state reset and logs appended), or a first run that does not initialize the logs. A 'pinned' profile makes several facility tasks insist on the same facility (fixed facility-ID lists, some with fixed worker-ID lists too). "
+    'One cold-started spec in six is simulated with unit_time 2 or 3 (absence lists in time units, steps and logs indexed by step). '
     'Hypothesis-generated contention-rich models (2-8 tasks, 0-4 workers, facilities, solo flags, fixed-ID lists, absences, all rules) simulated once under the observer. Oracle at the updated/allocated/recorded snapshots of every step and again on the logs: <=1 task per worker/facility, task-side lists == resource-side lists, holders READY/WORKING, resource WORKING <=> holds a task and not absent, FINISHED tasks hold nothing and are listed by nobody. Non-trivial = some step where a newly taken worker was also eligible for another READY/WORKING task, or a worker-facility pair was allocated; distinct by spec hash.'
 )
 ASSUMPTIONS = [
@@ -19,7 +20,7 @@ TECHNIQUE = 'property-based testing (Hypothesis): generated contention-rich mode
 LEVEL_TEXT = 'Generated-input search with invariant oracles over three live snapshots per step plus the logs; not a proof.'
 LEVEL_NOTE = "Trusts the step observer and the builder; absence of a resource is taken from the spec's absence lists."
 
-CFG = gen.Cfg(warm_modes=["morph", "graft", "carry", "append", "nolog"], warm=3, onesided=4, facilities=True, max_workers=4, min_tasks=2, max_time=[40, 80], p_auto=12, abs_p=2, abs_size=6, abs_max=12,
+CFG = gen.Cfg(unit_time=6, warm_modes=["morph", "graft", "carry", "append", "nolog"], warm=3, onesided=4, facilities=True, max_workers=4, min_tasks=2, max_time=[40, 80], p_auto=12, abs_p=2, abs_size=6, abs_max=12,
               work_pool=[0.0, 0.5, 1.0, 1.0, 2.0, 2.0, 3.0, 4.0])
 
 
